@@ -541,7 +541,7 @@ func buildHistory(p *Program, recs []Rec) ([]lin.Ev, string) {
 			}
 			for k := 0; k < p.Hot; k++ {
 				v, ok := fired[k]
-				evs = append(evs, lin.Ev{Op: model.Op{K: model.PSweepKey, Key: k}, Res: &model.Res{V: v, OK: ok}, Inv: r.Inv, Ret: r.Ret, Thread: r.Thread, Parent: parent, Nows: spanNow(r)})
+				evs = append(evs, lin.Ev{Op: model.Op{K: model.PSweepKey, Key: k}, Res: &model.Res{V: v, OK: ok}, Inv: r.Inv, Ret: r.Ret, Thread: r.Thread, Parent: parent, Nows: spanNow(r), CBAmbig: callbackSwapOverlaps(recs, r)})
 			}
 		case model.MSize, model.CCount:
 			// C08: Size/Count is exact only while no modifying call is in flight. A concurrent
